@@ -41,6 +41,14 @@ func finishCheck(id string, pc *propCfg, tier string, seed uint64, a *agg, start
 	groups := map[string]*violGroup{}
 	var order []string
 	harnessErrs := append([]string{}, a.harnessErrs...)
+	// A worker death that does not recur cannot be attributed (the run itself completes and is judged
+	// normally). One or two in a check are reported as warnings; more than that is harness trouble.
+	for _, t := range a.transient {
+		fmt.Printf("WARNING %s\n", t)
+	}
+	if len(a.transient) > 2 {
+		harnessErrs = append(harnessErrs, a.transient...)
+	}
 	for _, r := range res {
 		for k, v := range r.Faults {
 			faults[k] += v
@@ -150,27 +158,28 @@ func finishCheck(id string, pc *propCfg, tier string, seed uint64, a *agg, start
 		}
 	}
 	cov := map[string]interface{}{
-		"evaluations":                 evals,
-		"distinct_nontrivial":         len(distinct),
-		"nontrivial_runs":             nontrivial,
-		"rule":                        pc.Rule,
-		"samples":                     samples,
-		"exhaustive":                  false,
-		"runs_planned":                plannedRuns,
-		"runs_skipped_by_wall_budget": skippedRuns,
-		"runs_per_hour":               int(float64(evals) / runS * 3600),
-		"seeds":                       evals,
-		"simulated_time_s":            float64(simNs) / 1e9,
-		"faults_fired":                faults,
-		"yields_parked":               yields,
-		"probes":                      probes,
-		"counters":                    counters,
-		"unreached_probes":            unreached,
-		"configs":                     map[string]int{"fault": faultCfg, "fault_free": evals - faultCfg},
-		"components":                  map[string]interface{}{"real": pc.Real, "stub": pc.Stub},
-		"inconclusive":                inconclusive,
-		"violation_groups":            violSummaries,
-		"build_s":                     buildS,
+		"evaluations":                  evals,
+		"distinct_nontrivial":          len(distinct),
+		"nontrivial_runs":              nontrivial,
+		"rule":                         pc.Rule,
+		"samples":                      samples,
+		"exhaustive":                   false,
+		"runs_planned":                 plannedRuns,
+		"runs_skipped_by_wall_budget":  skippedRuns,
+		"runs_per_hour":                int(float64(evals) / runS * 3600),
+		"seeds":                        evals,
+		"simulated_time_s":             float64(simNs) / 1e9,
+		"faults_fired":                 faults,
+		"yields_parked":                yields,
+		"probes":                       probes,
+		"counters":                     counters,
+		"unreached_probes":             unreached,
+		"configs":                      map[string]int{"fault": faultCfg, "fault_free": evals - faultCfg},
+		"components":                   map[string]interface{}{"real": pc.Real, "stub": pc.Stub},
+		"inconclusive":                 inconclusive,
+		"violation_groups":             violSummaries,
+		"build_s":                      buildS,
+		"worker_deaths_not_reproduced": len(a.transient),
 	}
 	ev := map[string]interface{}{
 		"property_id": id, "tier": tier, "seed": int64(seed & 0x7fffffffffffffff), "level": "exploration",
